@@ -142,7 +142,7 @@ class C08Passive(Monitor):
     name = 'C08'
 
     def start(self, hist):
-        hist.ever_dest_tips = set(
+        hist.mon_state['ever_dest_tips'] = set(
             sha for n, sha in hist.world.heads().items() if is_dest(n))
 
     def after_job(self, hist, res, step):
@@ -151,7 +151,16 @@ class C08Passive(Monitor):
         out = []
         for n, sha in res.heads0.items():
             if is_dest(n):
-                hist.ever_dest_tips.add(sha)
+                hist.mon_state['ever_dest_tips'].add(sha)
+        third_refs = {}
+        for tx in res.txs:
+            for a, old, new, ref in tx:
+                if a == 'third':
+                    third_refs.setdefault(
+                        ref, 'created_by_third_party_during_job'
+                        if old == Z40 else 'updated_by_third_party_during_job')
+        if third_refs:
+            hist.count('c08_jobs_with_third_party_action')
         for k, tx, heads, tags in walk_txs(res):
             for a, old, new, ref in tx:
                 if a != 'berte':
@@ -208,15 +217,15 @@ class C08Passive(Monitor):
                     'C08: job %s %s foreign branch %s (%s -> %s)' %
                     (job_desc(res.job), kind, name, old[:10], new[:10]),
                     {'monitor': 'C08', 'clause': 'foreign_ref_' + kind,
-                     'job': jn}))
+                     'ref_origin': third_refs.get(ref, 'preexisting')}))
         for n, sha in res.heads1.items():
             if is_dest(n):
-                hist.ever_dest_tips.add(sha)
+                hist.mon_state['ever_dest_tips'].add(sha)
         # reachability of every former destination tip
         tips = list(res.heads1.values()) + list(res.tags1.values())
         if tips and any(res.heads0.get(n) != res.heads1.get(n)
                         for n in set(res.heads0) | set(res.heads1)):
-            for sha in sorted(hist.ever_dest_tips):
+            for sha in sorted(hist.mon_state['ever_dest_tips']):
                 if not any(w.is_ancestor(sha, t) for t in set(tips)):
                     out.append((
                         'C08: commit %s, once a destination tip, is no longer '
